@@ -14,7 +14,7 @@ from ..core import Part, Violation, guard
 RULE = ("Hypothesis-generated synthetic rulesets (written by the harness in the trainer's format, so the model is "
         "ground truth) x flag sets (skip_brute, all_lower, Grammar/Prince folder); the real PcfgGrammar + PcfgQueue "
         "are drained to exhaustion. Non-trivial = at least one base structure has >=2 variables with >=2 probability "
-        "groups each (a DAG with joins); distinct = hash of (model, flags).")
+        "groups each (a DAG with joins); distinct = hash of (model, flags). Scale part large_queue: a ruleset of 59 049 base structures (the queue holds more than 50 000 entries from the start); the i-th emitted pre-terminal must have the i-th largest probability of the ruleset and be new, for the first 60 000 / 400 000 pops.")
 ASSUMPTIONS = ["ruleset files are well-formed: each list is sorted by non-increasing probability (as the trainer writes them)",
                "probabilities are finite floats in (0,1]; products may underflow to denormals or 0.0",
                "P(Markov) < 1 when skip_brute is used"]
